@@ -48,7 +48,7 @@ def gen_case(rng, ctx):
         kind, cand = gen.large_candidate(rng, base)
         return {"ds": ds, "scheme": sch, "cand": cand, "kind": "large-" + kind, "dcls": "large", "scls": scls, "n": n}
     big = rng.random() < 0.06
-    cls, ds = gen.dataset(rng, classes="D1 D2 D3 D3 D4 D5 D6 D7 D7 D3 D21", nmax=30 if big else 9, mmax=12 if big else 7)
+    cls, ds = gen.dataset(rng, classes="D1 D2 D3 D3 D4 D5 D6 D7 D7 D3 D21 D14 D14", nmax=30 if big else 9, mmax=12 if big else 7)
     ds = libx.normalise_raw(ds)
     scls, sch = gen.scheme(rng, "S1 S2 S3 S3 S3 S4 S6 S7")
     kind, cand = gen.candidate(rng, ds)
